@@ -712,11 +712,25 @@ fn gen_leaf(rng: &mut Rng, t: &MTable, cols: &QCols, allow_is_null: bool) -> Pre
                     return Pred::Cmp(cmp_op(rng), Expr::Col(c), Expr::Col(d));
                 }
                 let k = int_const(rng, t, &c);
+                // a float constant against an integer column: between two values, or integral
+                // (only where every value converts to f64 exactly)
+                let small = col_values(t, &c).iter().all(|x| matches!(x, Cell::I(v) if v.unsigned_abs() < (1u64 << 50)));
+                if small && k.unsigned_abs() < (1u64 << 50) && rng.below(5) == 0 {
+                    let f = k as f64 + *rng.pick(&[0.5f64, -0.5, 0.0, 0.25, -0.75]);
+                    return Pred::Cmp(cmp_op(rng), Expr::Col(c), Expr::F(f.to_bits()));
+                }
                 return Pred::Cmp(cmp_op(rng), Expr::Col(c), Expr::I(k));
             }
             4..=5 if !cols.floats.is_empty() => {
                 let c = rng.pick(&cols.floats).clone();
                 let k = float_const(rng, t, &c);
+                if rng.below(6) == 0 {
+                    // an integer constant against a float column
+                    let i = f64::from_bits(k).round();
+                    if i.abs() < 1e15 {
+                        return Pred::Cmp(cmp_op(rng), Expr::Col(c), Expr::I(i as i64));
+                    }
+                }
                 return Pred::Cmp(cmp_op(rng), Expr::Col(c), Expr::F(k));
             }
             6..=7 if !cols.strs.is_empty() => {
@@ -1091,6 +1105,14 @@ pub fn features(q: &QSpec, t: &MTable) -> String {
                     if cs.iter().any(|c| nullable(c)) {
                         nullable_leaves += 1;
                     }
+                    if let (Expr::Col(cn), Expr::F(_) | Expr::I(_)) = (a, b) {
+                        // a constant of the other numeric type than the column's
+                        let is_float_const = matches!(b, Expr::F(_));
+                        let tm = t.col_index(cn).map(|i| t.type_mix(i)).unwrap_or((false, false, false));
+                        if (is_float_const && tm.0 && !tm.1) || (!is_float_const && tm.1 && !tm.0) {
+                            f.insert("cross_type_const");
+                        }
+                    }
                 }
                 Pred::IsNull(c) | Pred::IsNotNull(c) => {
                     if nullable(c) {
@@ -1274,6 +1296,7 @@ pub fn dominant_feature(features: &str) -> &'static str {
         "group_float",
         "agg_float",
         "groupN",
+        "cross_type_const",
         "nullable_cmp",
         "float_cmp",
         "str_eq",
